@@ -79,13 +79,13 @@ pub fn space_name_for_semantics<VM: VMBinding>(
     mutator: &crate::Mutator<VM>,
     semantics: AllocationSemantics,
 ) -> Option<&'static str> {
+    use crate::util::alloc::Allocator;
     let selector = mutator.config.allocator_mapping[semantics];
-    mutator
-        .config
-        .space_mapping
-        .iter()
-        .find(|(s, _)| *s == selector)
-        .map(|(_, space)| space.get_name())
+    if matches!(selector, crate::util::alloc::AllocatorSelector::None) {
+        return None;
+    }
+    // The allocator's current space (copying plans rebind allocators after each GC).
+    Some(unsafe { mutator.allocator(selector) }.get_space().get_name())
 }
 
 /// Was the last (or current) collection a nursery collection?  `None` for
